@@ -401,7 +401,16 @@ impl Format {
                     + (decomposed[6] as i64) * Unit::Nanosecond;
                 // NOTE: This is `from_day_of_year` without its panic on an invalid year.
                 let start_of_year = Epoch::maybe_from_gregorian(decomposed[0], 1, 1, 0, 0, 0, 0, ts)?;
-                start_of_year + (days - 1.0) * Unit::Day + elapsed
+                let start_of_day = start_of_year + (days - 1.0) * Unit::Day;
+                if decomposed[5] == 60 {
+                    // A 60th second only exists where a leap second was inserted: validate it on the date of that day,
+                    // exactly like the month and day path does.
+                    let (y, m, d, ..) = Epoch::compute_gregorian(start_of_day.duration, ts);
+                    if !is_gregorian_valid(y, m, d, decomposed[3] as u8, decomposed[4] as u8, 60, 0) {
+                        return Err(HifitimeError::InvalidGregorianDate);
+                    }
+                }
+                start_of_day + elapsed
             }
             None => Epoch::maybe_from_gregorian(
                 decomposed[0],
